@@ -3,7 +3,7 @@
 (* / sample_all_epochs over every schedule of at most MaxLen epochs drawn    *)
 (* from the alphabet Types x Durs x Thins.                                   *)
 EXTENDS GooseEngine
-CONSTANTS Types, Durs, Thins, MaxLen, Ks, Js, Hists
+CONSTANTS Types, Durs, Thins, MaxLen, Ks, Js, Hists, NQs
 Alphabet == {Cfg(INITIAL, 1, 1)} \cup {Cfg(t, d, k) : t \in Types, d \in Durs, k \in Thins}
 ApiAppend(c)         == AppendEpoch(c) /\ UNCHANGED params
 ApiAppendRejected(c) == AppendEpochRejected(c) /\ UNCHANGED params
@@ -25,7 +25,7 @@ IKStart == (\E k \in Kernels : KStart(k)) /\ UNCHANGED params
 ITransition == (\E k \in Kernels : Transition(k)) /\ UNCHANGED params
 IKEnd == (\E k \in Kernels : KEnd(k)) /\ UNCHANGED params
 ITune == (\E k \in Kernels : Tune(k)) /\ UNCHANGED params
-Init == /\ K \in Ks /\ J \in Js /\ NeedsHist \in {h \in Hists : h \subseteq 1..K}
+Init == /\ K \in Ks /\ J \in Js /\ NeedsHist \in {h \in Hists : h \subseteq 1..K} /\ NQ \in NQs
         /\ EInit
 Next == \/ \E c \in Alphabet : ApiAppend(c)
         \/ \E c \in Alphabet : ApiAppendRejected(c)
